@@ -18,6 +18,7 @@ func init() {
 			a.drainUnconditional("S.drain")
 			a.drainedKeysGoOut("S.drained-emitted")
 			a.everySignedMessageDrains("S.drain")
+			a.addKeysSearchesAll("P.forget")
 			// a disclosed key is one we no longer accept: acceptance of a data message is behind the test that both key ids
 			// are current or previous (a pair retired on either axis fails it), and that test accepts exactly id and id-1
 			if cs := a.MustFn("(dataMsg).checkSign"); cs != nil {
